@@ -38,7 +38,9 @@ Definition obs_answer (o : obs) : option (nat * list (bytes * bytes)) :=
 
 Definition not_panic (o : obs) : bool := match o with OPanic => false | _ => true end.
 
-Definition fuel_for (path : bytes) : nat := S (S (length path)).
+(* the fuel of the array model: one above the parameter nesting depth of the model trie, as in
+   da_lookup_refines_fuel *)
+Definition fuel_for (pats : list (bytes * nat)) : nat := S (pdepth (model_trie pats)).
 
 (* the property's predicate on one observed answer *)
 Definition lookup_prop (pats : list (bytes * nat)) (l : bytes * obs) : bool :=
@@ -49,11 +51,12 @@ Definition check_case (c : case) : N :=
   | CTab pats builderr cells nds ls =>
     if wf_patset pats then
       let d := mkDA cells nds in
+      let fu := fuel_for pats in
       verdict
         (negb builderr
          && repr_ok Nat.eqb pats d
          && forallb (fun l => obs_eqb (snd l) (router_lookup pats (fst l))
-                              && obs_eqb (snd l) (da_router_lookup (fuel_for (fst l)) pats d (fst l))) ls)
+                              && obs_eqb (snd l) (da_router_lookup fu pats d (fst l))) ls)
         (negb builderr && forallb (lookup_prop pats) ls)
     else
       (* outside the domain of the theorems (key with the termination byte or NUL, two keys of one
